@@ -13,9 +13,10 @@ import time
 from fractions import Fraction
 
 import harness_build
-from checks import exprun, runner, symrun
+from checks import exprun, runner, saferun, symrun
 
 LEVEL = "proof"
+CONST_DIMS = [0, 1, 3, 8, 17, 33, 65, 130]          # DIMS instantiated in the generated glue
 OPS = ["generic_sum", "generic_dot_product", "generic_squared_norm", "generic_euclidean"]
 FMT = {"f32": (24, 128, 8, 23), "f64": (53, 1024, 11, 52)}          # prec, emax, exponent bits, mantissa bits
 TWO = Fraction(2)
@@ -175,7 +176,7 @@ def onehot_sweep(g, e, n):
     return out
 
 
-def judge(ctx, stats, e, config, n, cls, line, a, b, res, who):
+def judge(ctx, stats, e, config, n, cls, line, a, b, res, who, mode="exp"):
     """Apply the oracle to one result line.  who = 'impl' (violations) or 'model' (the oracle and the theorem must
     agree on the model: a mismatch means the Python oracle is not the theorem's statement)."""
     ty, op = e["ty"], e["op"]
@@ -190,7 +191,7 @@ def judge(ctx, stats, e, config, n, cls, line, a, b, res, who):
         stats["decided_exact"] = stats.get("decided_exact", 0) + (1 if an["in_exact_domain"] else 0)
 
     def report(tag, what, extra):
-        replay = {"kind": "input", "case": "exp " + line[:8000], "build": config, "observed": (res or "<crashed>")[:300],
+        replay = {"kind": "input", "case": mode + " " + line[:8000], "build": config, "observed": (res or "<crashed>")[:300],
                   "exact_value": fstr(an["S"]), "sum_abs_terms": fstr(an["A"]), "n": an["n"], "class": cls}
         replay.update(extra)
         if who == "impl":
@@ -242,6 +243,12 @@ def oracle_runs(ctx, thorough):
                     a, b = make_inputs(g, e, n, cls)
                     cases.append(exprun.case_line(idx, e, "a", None, False, "R", 0, a, b, []))
                     meta.append((e, n, cls, a, b, True))
+            # the xconst form (DIMS a const generic) at the DIMS the harness glue instantiates
+            for d in (CONST_DIMS if thorough else (0, 3, 17, 65)):
+                for cls in ("ints", "cancel", "wide"):
+                    a, b = make_inputs(g, e, d, cls)
+                    cases.append(exprun.case_line(idx, e, "c", d, False, "R", 0, a, b, []))
+                    meta.append((dict(e, xany=e["xconst"]), d, cls, a, b, True))
         # the marker at every index of every length: implementation only (the model ran on seeded positions above)
         sweep_cases, sweep_meta = [], []
         for idx, e in rows:
@@ -310,6 +317,83 @@ def oracle_runs(ctx, thorough):
             "inputs_not_finite": stats.get("nonfinite_input", 0)}
 
 
+SAFE_OPS = {"_dot": "generic_dot_product", "_squared_euclidean": "generic_euclidean", "_sum": "generic_sum",
+            "_squared_norm": "generic_squared_norm"}
+
+
+def safe_runs(ctx, thorough):
+    """(D) the safe f32/f64 reductions under dispatch masks (hook): stable masks select Avx2Fma / Avx2 / Fallback,
+    nightly masks Avx512 / Avx2Fma / Fallback with the FastMath tail.  Same oracle on the implementation's result;
+    implementation = model bit for bit on stable, within twice the bound on nightly."""
+    facts = ctx.translate(steps=("tables", "dispatch"))
+    entries = []
+    for i, s in enumerate(facts.get("safe_entries", [])):
+        if s["ty"] in ("f32", "f64"):
+            for suf, op in SAFE_OPS.items():
+                if s["any"] == "%s_xany%s" % (s["ty"], suf):
+                    entries.append((i, s, op))
+    if not entries or not saferun.hook_ready(ctx):
+        return
+    lens = [0, 1, 3, 8, 17, 33, 65, 130] if thorough else [0, 3, 17, 65, 130]
+    plan = (("stable", [0, 4, 6] if not thorough else [0, 2, 4, 6]), ("nightly", [0, 1, 7] if not thorough else [0, 1, 3, 5, 7]))
+    for config, masks in plan:
+        ok, log = harness_build.build_cfh(config)
+        okd, logd = harness_build.build_driver()
+        if not ok or not okd:
+            ctx.broke("correspondence", "D:safe float reductions: build (%s)" % config, (log if not ok else logd)[-1500:])
+            continue
+        cases, meta = [], []
+        for k, cls in enumerate(("ints", "cancel", "wide", "onehot")):
+            cs, ms = saferun.gen_safe_cases(ctx, facts, config, [(i, s) for i, s, _ in entries], lens, [(0, 0, 0, 0)], masks,
+                                            cls=cls, seed_tag=440 + k)
+            cases += cs
+            meta += [m + (cls,) for m in ms]
+        opof = {i: op for i, s, op in entries}
+        imp = runner.impl("safe", cases, config=config)
+        mod = runner.model("safe", cases)
+        stats, dist, bad = {}, {}, 0
+        for line, m, ra, rb in zip(cases, meta, imp, mod):
+            sidx, sent, form, n, delta, mask, cls = m
+            ty = sent["ty"]
+            name = sent["const"] if form == "c" else sent["any"]
+            e = {"ty": ty, "op": opof[sidx], "xany": "%s[mask=%d]" % (name, mask)}
+            toks = line.split(" ")
+            la, lb = int(toks[8]), int(toks[9])
+            a = [int(x, 16) for x in toks[13:13 + la]]
+            b = [int(x, 16) for x in toks[13 + la:13 + la + lb]]
+            key = "safe_%s_mask%d_%s" % (config, mask, cls)
+            dist[key] = dist.get(key, 0) + 1
+            if ra is None or ra.startswith("signal") or "CANARY" in ra or "INPUT-MODIFIED" in ra:
+                ctx.violation("C04:memory:%s" % name, "%s (n=%d, mask %d, %s build) crashed or wrote outside its slices" % (
+                    name, n, mask, config), {"kind": "input", "case": "safe " + line[:6000], "build": config, "observed": ra})
+                continue
+            an = judge(ctx, stats, e, config, n, cls, line, a, b, ra, "impl", mode="safe")
+            judge(ctx, stats, e, config, n, cls, line, a, b, rb, "model", mode="safe")
+            if ra == rb:
+                continue
+            agree = False
+            if config == "nightly":
+                ka, va = result_value(ty, ra)
+                kb, vb = result_value(ty, rb)
+                if an is not None and an["in_bound_domain"] and ka == "ok" and kb == "ok":
+                    agree = abs(va - vb) <= 2 * an["bound"]
+            if not agree:
+                bad += 1
+                if bad <= 3:
+                    ctx.broke("correspondence", "D:safe float reductions %s n=%d mask=%d %s data (%s): implementation and model "
+                              "differ" % (name, n, mask, cls, config), {"case": line[:3000], "impl": (ra or "")[:300], "model": (rb or "")[:300]})
+        ctx.cover(len(cases), distinct_keys=["C04safe|%s|%d" % (config, hash(c)) for c in cases],
+                  samples=[{"case": cases[len(cases) // 2][:200], "impl": (imp[len(cases) // 2] or "")[:60],
+                            "model": (mod[len(cases) // 2] or "")[:60]}] if cases else [],
+                  rule="(D) C04, %s build: the 8 safe f32/f64 reductions (xany and xconst) under dispatch masks %s (hook) at "
+                       "lengths %s, classes ints/cancel/wide/onehot; same exact-arithmetic oracle on the implementation's result; "
+                       "implementation = model bit for bit (stable) / within twice the bound (nightly)" % (config, masks, lens),
+                  dist=dist)
+        ctx.extra.setdefault("correspondence_D_oracle", {})[config] = {
+            "cases": len(cases), "model_disagreements": bad, "impl_results_decided_by_bound": stats.get("decided_bound", 0),
+            "impl_results_decided_by_exactness": stats.get("decided_exact", 0)}
+
+
 def replay_first(ctx):
     """python3 run.py --replay <file>: re-run the recorded case on the recorded build and judge it again."""
     path = os.environ.get("VERIF_REPLAY")
@@ -320,21 +404,30 @@ def replay_first(ctx):
     except (OSError, ValueError):
         return
     case = r.get("case", "")
-    if not case.startswith("exp ") or r.get("property") != "C04":
+    mode = case.split(" ")[0]
+    if mode not in ("exp", "safe") or r.get("property") != "C04":
         return
-    line, config = case[4:], r.get("build", "stable")
-    facts = exprun.load_facts(ctx)
+    line, config = case[len(mode) + 1:], r.get("build", "stable")
+    facts = ctx.translate(steps=("tables", "dispatch"))
     toks = line.split(" ")
-    e = facts["exports"][int(toks[0])]
-    la, lb = int(toks[5]), int(toks[6])
-    a = [int(x, 16) for x in toks[10:10 + la]]
-    b = [int(x, 16) for x in toks[10 + la:10 + la + lb]]
+    if mode == "exp":
+        e = facts["exports"][int(toks[0])]
+        e = dict(e, xany=toks[1])
+        off = 5
+    else:
+        sent = facts["safe_entries"][int(toks[0])]
+        op = [o for suf, o in SAFE_OPS.items() if sent["any"].endswith(suf)][0]
+        e = {"ty": sent["ty"], "op": op, "xany": "%s[mask=%s]" % (toks[4], toks[3])}
+        off = 8
+    la, lb = int(toks[off]), int(toks[off + 1])
+    a = [int(x, 16) for x in toks[off + 5:off + 5 + la]]
+    b = [int(x, 16) for x in toks[off + 5 + la:off + 5 + la + lb]]
     ok, log = harness_build.build_cfh(config)
     if not ok:
         ctx.broke("correspondence", "replay: build (%s)" % config, log[-800:])
         return
-    res = runner.impl("exp", [line], config=config)[0]
-    judge(ctx, {}, e, config, la, r.get("class", "replay"), line, a, b, res, "impl")
+    res = runner.impl(mode, [line], config=config)[0]
+    judge(ctx, {}, e, config, la, r.get("class", "replay"), line, a, b, res, "impl", mode=mode)
     ctx.note("replay %s: implementation now returns %s" % (path, res))
 
 
@@ -348,8 +441,7 @@ def run(ctx):
     ctx.assumptions += ["Flocq's 4 standard-library axioms (classical reals) appear under every theorem of Props/C04.v",
                         "nightly build: the scalar tail uses FastMath (algebraic float intrinsics); it is held to the theorem's "
                         "bound and exactness statements (which hold for every order and fusion), not to bit equality",
-                        "safe API under each dispatch mask: the safe wrappers add no arithmetic (C01/C09/C12 tie them to the "
-                        "exports); NEON is not executable here"]
+                        "NEON is not executable here (covered at table level by C10/C11 only)"]
     replay_first(ctx)
     t0 = time.time()
     ctx.prove("Props/C04.v")
@@ -363,5 +455,7 @@ def run(ctx):
                         places=("R", "L", "3") if thorough else ("R",), seed_tag=4)
     t3 = time.time()
     oracle_runs(ctx, thorough)
-    ctx.note("phases: proofs+audit %.0fs, (A) %.0fs, (C) bit-for-bit %.0fs, (C) oracle %.0fs (harness rebuilds included)" % (
-        t1 - t0, t2 - t1, t3 - t2, time.time() - t3))
+    t4 = time.time()
+    safe_runs(ctx, thorough)
+    ctx.note("phases: proofs+audit %.0fs, (A) %.0fs, (C) bit-for-bit %.0fs, (C) oracle %.0fs, (D) safe API %.0fs (harness rebuilds included)" % (
+        t1 - t0, t2 - t1, t3 - t2, t4 - t3, time.time() - t4))
